@@ -64,6 +64,17 @@ func ZZ_C12_ersIsolation() {
 	if nondet.Bool("z.otherEdsPod") {
 		p := zzPod("z-pod", zzNodeName(1), "bar-z", "hash-z", 0, corev1.PodRunning, true, nondet.Base().Add(-3600*1e9))
 		p.Labels[datadoghqv1alpha1.ExtendedDaemonSetNameLabelKey] = "bar"
+		// ... which may itself be in its canary phase (its pods then carry the canary label)
+		if nondet.Bool("z.inCanaryPhase") {
+			p.Labels[datadoghqv1alpha1.ExtendedDaemonSetReplicaSetCanaryLabelKey] = datadoghqv1alpha1.ExtendedDaemonSetReplicaSetCanaryLabelValue
+		}
+		add(p, false, false)
+	}
+	// an unrelated pod that happens to carry the canary label and nothing else of ours
+	if nondet.Bool("strayCanaryLabelledPod") {
+		p := &corev1.Pod{ObjectMeta: metav1.ObjectMeta{Name: "stray", Namespace: zzNS, Labels: map[string]string{
+			datadoghqv1alpha1.ExtendedDaemonSetReplicaSetCanaryLabelKey: datadoghqv1alpha1.ExtendedDaemonSetReplicaSetCanaryLabelValue}},
+			Spec: corev1.PodSpec{NodeName: zzNodeName(0)}, Status: corev1.PodStatus{Phase: corev1.PodRunning}}
 		add(p, false, false)
 	}
 	// DaemonSet pods with overlapping labels
